@@ -897,6 +897,10 @@ GEN_SRC.update({n: gen_src(n) for n in ("SrcOcc", "SrcLess", "SrcBackwardSearch"
 GEN_SRC.update({n: gen_src(n) for n in ("SrcOrf", "SrcGc", "SrcAlphabet", "SrcQGrams", "SrcQGramIndex", "SrcIit")})       # dialect "cf" (tools/rs2lean_cf.py)
 
 
+# genio: sub-dialect "io" of dialect cf (rs2lean_cf.IoFn): the indexed FASTA reader (C12)
+GEN_SRC.update({n: gen_src(n) for n in ("SrcIdxFa",)})
+
+
 # ------------------------------------------------------------------------------------------ theorem modules built here
 
 def enclosing_decl(rel, line):
@@ -998,6 +1002,8 @@ EXTRACTORS["C06"] = EXTRACTORS.get("C06", []) + [GEN_SRC[n] for n in ("SrcFmdExt
 GEN_SRC.update({n: gen_src(n) for n in ("SrcSus",)})
 EXTRACTORS["C03"] = EXTRACTORS["C03"] + [GEN_SRC["SrcSus"]]
 
+# genio: C12 — Thm/C12.lean imports RbV.Thm.GenSrcIdxFa and restates the theorems
+EXTRACTORS["C12"] = EXTRACTORS.get("C12", []) + [GEN_SRC["SrcIdxFa"]]
 
 # additive registrations (kept outside the dict literal so that concurrent edits merge)
 EXTRACTORS["C03"] = EXTRACTORS["C03"] + [gen_saiswidth]
